@@ -350,15 +350,17 @@ type c04Run struct {
 	// hooks (C06 reuses this search with another client / reset / oracles)
 	cli       func(*apih.Server) *apih.Client
 	reset     func(*apih.Server)
-	onState   func(*apih.Server, *c04State)                                        // on every state, once (default: sweep + panel)
-	afterStep func(s *apih.Server, next *refsem.RefStore, path []c04Step, rot int) // after every judged transition
-	preOp     func(*apih.Server)                                                   // right before the operation is sent
-	postOp    func(s *apih.Server, path []c04Step)                                 // after the operation and the A-side listings
+	onState   func(*c04Run, *apih.Server, *c04State)                                          // on every state, once (default: sweep + panel)
+	afterStep func(r *c04Run, s *apih.Server, next *refsem.RefStore, path []c04Step, rot int) // after every judged transition
+	preOp     func(*apih.Server)                                                              // right before the operation is sent
+	postOp    func(r *c04Run, s *apih.Server, path []c04Step)                                 // after the operation and the A-side listings
 
 	ignore func(sig string) bool // candidate signatures that are another property's subject
 
 	mu       sync.Mutex
 	cands    []c04Cand
+	perSig   map[string]int
+	dropped  map[string]int
 	reported map[string]bool
 	sigCount map[string]int
 
@@ -372,7 +374,15 @@ func (r *c04Run) cand(c c04Cand) {
 		return
 	}
 	r.mu.Lock()
-	r.cands = append(r.cands, c)
+	if r.perSig == nil {
+		r.perSig = map[string]int{}
+	}
+	r.perSig[c.Sig]++
+	if r.perSig[c.Sig] <= 200 { // keep the memory bounded on a badly broken tree; counts stay exact
+		r.cands = append(r.cands, c)
+	} else {
+		r.dropped[c.Sig]++
+	}
 	r.mu.Unlock()
 }
 
@@ -387,18 +397,25 @@ func (r *c04Run) recreate(s *apih.Server, st *c04State) bool {
 	r.replays.Add(1)
 	l := axListREST(c, &ketoapi.RelationQuery{}, 0)
 	r.listCalls.Add(int64(l.Pages))
-	if l.Err != "" || refsem.DiffMultiset(l.Multiset, st.Model.Match(c04Net, nil), false) != "" {
+	if d := refsem.DiffMultiset(l.Multiset, st.Model.Match(c04Net, nil), false); l.Err != "" || d != "" {
+		// the history was validated step by step when it was first explored, so this is
+		// either a store that is not empty after the reset / not a function of the history,
+		// or nondeterminism; confirmed by re-execution before it is reported
 		r.divergences.Add(1)
+		r.cand(c04Cand{Sig: "list-mismatch:after-replay", What: fmt.Sprintf("after resetting the store and replaying the history the full listing differs from the model: %s %s", d, l.Err), Path: st.Path, Extra: map[string]any{"model": st.Model.Canon(c04Net, 0)}})
 		return false
 	}
 	return true
 }
 
 // observe lists one query through both transports and compares to the model.
-func (r *c04Run) observe(c *apih.Client, model *refsem.RefStore, q *ketoapi.RelationQuery, restSize, grpcSize int) (sig, what string) {
+func (r *c04Run) observe(c *apih.Client, model *refsem.RefStore, q *ketoapi.RelationQuery, restSize, grpcSize int, transports ...string) (sig, what string) {
 	want := model.Match(c04Net, q)
 	unknownNS := (q.Namespace != nil && *q.Namespace == "zz") || (q.SubjectSet != nil && q.SubjectSet.Namespace == "zz")
-	for _, tr := range []string{"rest", "grpc"} {
+	if len(transports) == 0 {
+		transports = []string{"rest", "grpc"}
+	}
+	for _, tr := range transports {
 		var l axListing
 		size := restSize
 		if tr == "rest" {
@@ -583,7 +600,7 @@ func (r *c04Run) step(s *apih.Server, st *c04State, op *c04Op) (next *refsem.Ref
 	grpc := axListGRPC(c, &ketoapi.RelationQuery{}, 2)
 	r.listCalls.Add(int64(rest.Pages + grpc.Pages))
 	if r.postOp != nil {
-		r.postOp(s, full)
+		r.postOp(r, s, full)
 	}
 	if rest.Err != "" || grpc.Err != "" {
 		mk("list-error:full", "full listing failed after the operation: "+rest.Err+" "+grpc.Err, nil)
@@ -645,13 +662,15 @@ func (r *c04Run) step(s *apih.Server, st *c04State, op *c04Op) (next *refsem.Ref
 	return nil, -1, cands
 }
 
-// rotating per-transition query check: every shape, one value assignment each.
+// rotating per-transition query check: every shape, one value assignment and one
+// transport each (the full listing through both transports is part of step).
 func (r *c04Run) shapesAfter(s *apih.Server, model *refsem.RefStore, path []c04Step, rot int) {
 	c := r.cli(s)
 	for sh := 0; sh < 16; sh++ {
 		qs := r.byShape[sh]
 		q := qs[(rot+sh*7)%len(qs)]
-		if sig, what := r.observe(c, model, q, 0, 2); sig != "" {
+		tr := []string{"rest", "grpc"}[(rot+sh)%2] // transports alternate over shapes and transitions
+		if sig, what := r.observe(c, model, q, 0, 2, tr); sig != "" {
 			r.cand(c04Cand{Sig: sig, What: what, Path: path, Extra: map[string]any{"query": q, "model": model.Canon(c04Net, 0)}})
 		}
 	}
@@ -673,7 +692,7 @@ func (r *c04Run) confirm(s *apih.Server, cd c04Cand) bool {
 }
 
 func (r *c04Run) sub() *c04Run {
-	return &c04Run{run: r.run, ops: r.ops, qs: r.qs, byShape: r.byShape, ignore: r.ignore, cli: r.cli, reset: r.reset, onState: r.onState, afterStep: r.afterStep, preOp: r.preOp, postOp: r.postOp}
+	return &c04Run{dropped: map[string]int{}, run: r.run, ops: r.ops, qs: r.qs, byShape: r.byShape, ignore: r.ignore, cli: r.cli, reset: r.reset, onState: r.onState, afterStep: r.afterStep, preOp: r.preOp, postOp: r.postOp}
 }
 
 // replayPath executes a history step by step with the full oracle and returns
@@ -695,10 +714,13 @@ func (r *c04Run) replayPath(s *apih.Server, path []c04Step, verbose bool) []c04C
 		}
 		st = &c04State{Model: next, Path: append(append([]c04Step{}, st.Path...), c04Step{Op: step.Op, Effect: eff})}
 		if sub.afterStep != nil {
-			sub.afterStep(s, next, st.Path, i)
+			sub.afterStep(sub, s, next, st.Path, i)
 		}
 	}
-	sub.onState(s, st)
+	if l := axListREST(sub.cli(s), &ketoapi.RelationQuery{}, 0); l.Err != "" || refsem.DiffMultiset(l.Multiset, st.Model.Match(c04Net, nil), false) != "" {
+		sub.cand(c04Cand{Sig: "list-mismatch:after-replay", What: "full listing differs from the model after the history: " + refsem.DiffMultiset(l.Multiset, st.Model.Match(c04Net, nil), false) + " " + l.Err, Path: st.Path})
+	}
+	sub.onState(sub, s, st)
 	return sub.cands
 }
 
@@ -713,6 +735,7 @@ type c04Result struct {
 // bfs is the level-synchronous search. roots are depth 0.
 func (r *c04Run) bfs(pool *axServerPool, roots []*c04State, maxDepth int, deadline time.Time) c04Result {
 	res := c04Result{states: map[string]*c04State{}, depthDone: -1, exhaustive: true}
+	t0 := time.Now()
 	var frontier []*c04State
 	for _, st := range roots {
 		res.states[st.Canon] = st
@@ -738,7 +761,7 @@ func (r *c04Run) bfs(pool *axServerPool, roots []*c04State, maxDepth int, deadli
 			if !r.recreate(s, st) {
 				return
 			}
-			r.onState(s, st)
+			r.onState(r, s, st)
 			atomic.AddInt64(&res.swept, 1)
 		})
 		// phase 2: every (state, operation) pair
@@ -764,7 +787,7 @@ func (r *c04Run) bfs(pool *axServerPool, roots []*c04State, maxDepth int, deadli
 			}
 			path := append(append([]c04Step{}, st.Path...), c04Step{Op: op, Effect: eff})
 			if r.afterStep != nil {
-				r.afterStep(s, next, path, k)
+				r.afterStep(r, s, next, path, k)
 			}
 			canon := next.Canon(c04Net, 2)
 			mu.Lock()
@@ -785,6 +808,11 @@ func (r *c04Run) bfs(pool *axServerPool, roots []*c04State, maxDepth int, deadli
 		r.mu.Lock()
 		cands := r.cands
 		r.cands = nil
+		r.perSig = nil
+		for k, n := range r.dropped {
+			r.sigCount[k] += n
+		}
+		r.dropped = map[string]int{}
 		r.mu.Unlock()
 		sort.SliceStable(cands, func(i, j int) bool {
 			if len(cands[i].Path) != len(cands[j].Path) {
@@ -792,17 +820,21 @@ func (r *c04Run) bfs(pool *axServerPool, roots []*c04State, maxDepth int, deadli
 			}
 			return strings.Join(c04PathNames(cands[i].Path), "|") < strings.Join(c04PathNames(cands[j].Path), "|")
 		})
+		fmt.Printf("[bfs %s] depth %d: %d states, %d candidate violations, %d transitions so far, %.0fs\n", r.run.Property, depth, len(frontier), len(cands), r.transitions.Load(), time.Since(t0).Seconds())
+		attempts := map[string]int{}
 		for _, cd := range cands {
 			r.sigCount[cd.Sig]++
-			if r.reported[cd.Sig] {
+			if r.reported[cd.Sig] || attempts[cd.Sig] >= 3 {
+				continue
+			}
+			attempts[cd.Sig]++
+			if !r.confirm(pool.get(0), cd) {
+				// not reproduced from its recorded history: never reported (DESIGN §1 rule 2)
+				r.unstable.Add(1)
+				fmt.Printf("[bfs %s] candidate %s did not reproduce from history %v\n", r.run.Property, cd.Sig, c04PathNames(cd.Path))
 				continue
 			}
 			r.reported[cd.Sig] = true
-			if !r.confirm(pool.get(0), cd) {
-				r.unstable.Add(1)
-				r.reported[cd.Sig] = false
-				continue
-			}
 			rep := map[string]any{"path": c04PathNames(cd.Path), "operations": c04PathDescribe(cd.Path)}
 			for k, v := range cd.Extra {
 				rep[k] = v
@@ -831,15 +863,15 @@ func (r *c04Run) bfs(pool *axServerPool, roots []*c04State, maxDepth int, deadli
 }
 
 func c04NewRun(run *ev.Run) *c04Run {
-	r := &c04Run{run: run, ops: c04Alphabet(), qs: c04Queries(), reported: map[string]bool{}, sigCount: map[string]int{}}
+	r := &c04Run{run: run, ops: c04Alphabet(), qs: c04Queries(), reported: map[string]bool{}, sigCount: map[string]int{}, dropped: map[string]int{}}
 	for _, q := range r.qs {
 		b := axShapeBits(q)
 		r.byShape[b] = append(r.byShape[b], q)
 	}
 	r.cli = func(s *apih.Server) *apih.Client { return s.Client() }
 	r.reset = func(s *apih.Server) { s.Truncate() }
-	r.onState = func(s *apih.Server, st *c04State) { r.sweep(s, st); r.panel(s, st) }
-	r.afterStep = r.shapesAfter
+	r.onState = func(r *c04Run, s *apih.Server, st *c04State) { r.sweep(s, st); r.panel(s, st) }
+	r.afterStep = (*c04Run).shapesAfter
 	return r
 }
 
@@ -915,7 +947,7 @@ func TestC04(t *testing.T) {
 	maxDepth := 3
 	deadline := ev.Deadline(200, 1500)
 	if ev.Thorough() {
-		maxDepth = 6
+		maxDepth = 9 // the capped state space (3^7 states) closes at depth 7: the search ends when the frontier is empty
 	}
 	res := r.bfs(pool, roots, maxDepth, deadline)
 
